@@ -31,7 +31,7 @@ type vfObs struct {
 	m       couchbase.ObserverMetric
 }
 
-func (o *vfObs) GetPersistSeqNo() gocbcore.SeqNo        { return gocbcore.SeqNo(o.persist) }
+func (o *vfObs) GetPersistSeqNo() gocbcore.SeqNo       { return gocbcore.SeqNo(o.persist) }
 func (o *vfObs) GetMetrics() *couchbase.ObserverMetric { return &o.m }
 
 type vfStream struct {
@@ -43,11 +43,13 @@ type vfStream struct {
 	cp        stream.CheckpointMetric
 }
 
-func (s *vfStream) GetObservers() *wrapper.ConcurrentSwissMap[uint16, couchbase.Observer] { return s.observers }
+func (s *vfStream) GetObservers() *wrapper.ConcurrentSwissMap[uint16, couchbase.Observer] {
+	return s.observers
+}
 func (s *vfStream) GetOffsets() (*wrapper.ConcurrentSwissMap[uint16, *models.Offset], *wrapper.ConcurrentSwissMap[uint16, bool], bool) {
 	return s.offsets, nil, false
 }
-func (s *vfStream) GetMetric() (*stream.Metric, int32)             { return &s.metric, s.active }
+func (s *vfStream) GetMetric() (*stream.Metric, int32)            { return &s.metric, s.active }
 func (s *vfStream) GetCheckpointMetric() *stream.CheckpointMetric { return &s.cp }
 
 type vfMClient struct {
